@@ -1,0 +1,15 @@
+// Copyright 2024 The Go Authors. All rights reserved.
+// Use of this source code is governed by a BSD-style
+// license that can be found in the LICENSE file.
+
+//go:build verif
+
+package modfile
+
+// VerifParseSyntax exposes the syntax-only parser to the verification
+// harness (build tag verif only): it parses data into a FileSyntax without
+// interpreting any directive, so the syntax layer can be driven on inputs
+// the directive layer rejects.
+func VerifParseSyntax(file string, data []byte) (*FileSyntax, error) {
+	return parse(file, data)
+}
